@@ -377,8 +377,9 @@ def check_update_nested(res, key, p1, p2):
             if not R.isdict(cur) or key not in cur:
                 break
             cur = cur[key]
-            if cur is prev or (not isinstance(prev, (dict, list)) and type(cur) is type(prev)
-                               and cur == prev):
+            # the same object, or (a copying implementation) an equal value; the exact shape of
+            # the result is judged separately below
+            if cur is prev or (type(cur) is type(prev) and cur == p1[key]):
                 found = True
                 break
         if not found:
